@@ -10,7 +10,8 @@ from harness.common import EX, TIMES, new_doc, stub_logging_str
 FORMATS = ["json", "xml", "rdf", "provn"]
 DEST = ["returned string", "text stream", "binary stream", "file path"]
 SRC = ["content str", "content bytes", "text stream", "binary stream", "file path"]
-VARIANTS = ["unicode string", "int+bool", "datetime", "uri+qname", "lang literal", "relation"]
+VARIANTS = ["unicode string", "int+bool", "datetime", "uri+qname", "lang literal", "relation", "large multi-byte text +0",
+            "large multi-byte text +1", "large multi-byte text +2"]
 
 
 def _doc(variant):
@@ -29,10 +30,16 @@ def _doc(variant):
         d.entity("ex:e1", {"ex:u": Identifier("http://x/é"), "prov:type": d.valid_qualified_name("ex:T")})
     elif v == "lang literal":
         d.entity("ex:e1", {"prov:label": Literal("été", None, "fr")})
-    else:
+    elif v == "relation":
         d.entity("ex:e1")
         d.activity("ex:a1")
         d.wasGeneratedBy("ex:e1", "ex:a1", TIMES[0], identifier="ex:g1", other_attributes={"ex:k": "ü"})
+    else:
+        # more than 16 KiB of 3-byte characters, shifted by 0-2 ASCII characters: any fixed-size chunking or
+        # prefix sniffing of the UTF-8 bytes cuts through a character for at least one shift
+        shift = int(v[-1])
+        for i in range(12):
+            d.entity("ex:e%d" % i, {"prov:label": "x" * shift + "日本語のテキスト" * 80})
     return d
 
 
@@ -70,6 +77,10 @@ def io_kinds(ctx):
             data = st.getvalue()
         else:
             p = os.path.join(scratch, "out.%s" % fmt)
+            if explicit:
+                # the destination already exists and holds a LONGER, unrelated file
+                with open(p, "wb") as f:
+                    f.write(b"previous content of the file\n" * (40 + len(ref) // 10))
             d.serialize(p, format=fmt)
             with open(p, "rb") as f:
                 data = f.read()
@@ -118,7 +129,7 @@ OBLIGATIONS = [
                desc="configuration product format {json, xml, rdf, provn} x 4 destination kinds x 5 source kinds x prov.read with/without format x 6 document variants with non-ASCII content: "
                     "the solver only enumerates the configurations (every path is one concrete configuration executed on the unmodified build): same text for every destination kind "
                     "(UTF-8 for binary targets; XML: parses identically), same document from every source kind, prov.read returns that document",
-               bounds="4 x 4 x 5 x 2 x 6 = 960 configurations, exhaustively", assumptions=["documents in the intersection of the JSON/XML/RDF-expressible spaces", "RDF compared against unified()"],
+               bounds="4 x 4 x 5 x 2 x 9 = 1440 configurations, exhaustively (3 variants are > 16 KiB documents of multi-byte text; path destinations also over a pre-existing longer file)", assumptions=["documents in the intersection of the JSON/XML/RDF-expressible spaces", "RDF compared against unified()"],
                functions=["prov.model.ProvDocument.serialize/deserialize", "prov.read", "prov.serializers.*.serialize/deserialize (stream handling)"],
                shims=["no symbolic content: this is the weakest use of the technique (stated in DESIGN.md)"], best_verdict="PATH_COMPLETE",
                budget_s=(200, 600), per_path_s=(30, 60)),
